@@ -1,4 +1,148 @@
-import PysamlModel.Model.Sp
-import PysamlModel.Spec.Sp
+/-
+  C01 — The SP yields identity only from responses signed as its policy requires.
+  The statements are about the full `Sp.process` (every message content, clock, audience list …);
+  the 8 x 4 x 4 x 2 x 3 table of the quantifier is the case split inside the proofs.
+-/
+import PysamlModel.Proofs.Sp
+import PysamlModel.Props.C04
+import PysamlModel.Gen.SpDefaults
+
 namespace C01
+open Sp
+
+/-- the assertions `_assertion` looked at in the forced pass were all signed -/
+theorem forced_all_valid {cfg : Cfg} {env : Env} {st : St} {r : Response} {p : Parsed}
+    (hv : verify cfg env true st r = .ok (some p)) : ∀ a ∈ visible r, a.sig = .valid := by
+  obtain ⟨_, hpa⟩ := verify_some_inv hv
+  obtain ⟨⟨st1, h1, h2⟩, hsig, _⟩ := parseAssertion_inv hpa
+  intro a ha
+  unfold visible at ha
+  rcases List.mem_append.mp ha with hd | hpl
+  · obtain ⟨s, s', hs⟩ := checkAll_inv h2 a hd
+    obtain ⟨hA, _⟩ := checkAssertion_inv hs
+    have hp := hA.sigReq rfl
+    have := List.any_eq_false.mp hsig a hd
+    cases hval : decide (a.sig = .valid) with
+    | true => exact of_decide_eq_true hval
+    | false =>
+      have hne : a.sig ≠ .valid := of_decide_eq_false hval
+      simp [hp, hne] at this
+  · obtain ⟨s, s', hs⟩ := checkAll_inv h1 a hpl
+    obtain ⟨hA, _⟩ := checkAssertion_inv hs
+    exact hA.sigGood (hA.sigReq rfl) rfl
+
+/-- whatever pass produced the result, every visible signature that is present verifies -/
+theorem visible_sigs_ok {cfg : Cfg} {env : Env} {rs : Bool} {st : St} {r : Response} {p : Parsed}
+    (hv : verify cfg env rs st r = .ok (some p)) : ∀ a ∈ visible r, sigOk a.sig = true := by
+  obtain ⟨_, hpa⟩ := verify_some_inv hv
+  obtain ⟨⟨st1, h1, h2⟩, hsig, _⟩ := parseAssertion_inv hpa
+  intro a ha
+  unfold visible at ha
+  unfold sigOk
+  rcases List.mem_append.mp ha with hd | hpl
+  · have := List.any_eq_false.mp hsig a hd
+    cases hs : a.sig <;> simp [hs, Sig.present] at this ⊢
+  · obtain ⟨s, s', hs⟩ := checkAll_inv h1 a hpl
+    obtain ⟨hA, _⟩ := checkAssertion_inv hs
+    cases hp : a.sig.present with
+    | false => cases hs' : a.sig <;> simp_all [Sig.present]
+    | true => have := hA.sigGood hp rfl; simp [this]
+
+/-- C01, soundness: identity is produced only if every signature present on the Response or on a
+    visible assertion verifies and the Response / assertions carry the signatures the three options
+    demand — for every configuration, clock and message. -/
+theorem C01_sound {cfg : Cfg} {env : Env} {r : Response} {o : Reported}
+    (h : process cfg env r = .identity o) :
+    sigPolicyOk cfg.wantResp cfg.wantAssert cfg.wantEither r = true := by
+  obtain ⟨_, cf, respSigned, rs, p, assertSigned, hp1, _, hv, has, hrs, heither, _⟩ := process_identity_inv h
+  obtain ⟨req, hl, hreq1, hreq2⟩ := pass1_ok_inv hp1
+  obtain ⟨hrgood, hrreq, _⟩ := loads_ok_inv hl
+  have hvis := visible_sigs_ok hv
+  unfold sigPolicyOk
+  simp only [Bool.and_eq_true, Bool.or_eq_true, Bool.not_eq_true']
+  -- Response signature
+  have hrsig : sigOk r.sig = true := by
+    unfold sigOk
+    cases hp : r.sig.present with
+    | false => cases hs : r.sig <;> simp_all [Sig.present]
+    | true => have := hrgood hp; simp [this]
+  have hresp_valid : req = true → r.sig = .valid := fun hq => hrgood (hrreq hq)
+  refine ⟨⟨⟨⟨hrsig, List.all_eq_true.mpr hvis⟩, ?_⟩, ?_⟩, ?_⟩
+  · cases hw : cfg.wantResp with
+    | false => exact Or.inl rfl
+    | true => exact Or.inr (by simp [hresp_valid (hreq2 hw)])
+  · cases hw : cfg.wantAssert with
+    | false => exact Or.inl rfl
+    | true =>
+      right
+      have hrs' : rs = true := by
+        cases hr : rs with
+        | true => rfl
+        | false => have := hrs hr; rw [hw] at this; cases this
+      subst hrs'
+      apply List.all_eq_true.mpr
+      intro a ha
+      simp [forced_all_valid hv a ha]
+  · cases hw : cfg.wantEither with
+    | false => exact Or.inl (Or.inl rfl)
+    | true =>
+      rw [hw] at heither
+      simp only [Bool.true_and, Bool.and_eq_false_iff, Bool.not_eq_false'] at heither
+      rcases heither with h1 | h1
+      · exact Or.inl (Or.inr (by simp [hresp_valid (hreq1 h1)]))
+      · right
+        have hrs' := has h1
+        subst hrs'
+        apply List.all_eq_true.mpr
+        intro a ha
+        simp [forced_all_valid hv a ha]
+
+/-- The option defaults in the CURRENT source (regenerated table) are the ones the property names:
+    want_response_signed = True, the other two False, unsolicited responses not allowed. -/
+theorem C01_defaults :
+    Gen.SpDefaults.wantResponseSigned = true ∧ Gen.SpDefaults.wantAssertionsSigned = false ∧
+    Gen.SpDefaults.wantAssertionsOrResponseSigned = false ∧ Gen.SpDefaults.allowUnsolicited = false := by decide
+
+/-- The soundness half of the decidable specification holds of the model for a configuration whose
+    options were resolved with the property's defaults. -/
+theorem C01_model_meets_spec_sound (o : SigOpts) (cfg : Cfg) (env : Env) (r : Response)
+    (hcfg : (cfg.wantResp, cfg.wantAssert, cfg.wantEither) = o.resolve true false false) :
+    specC01Sound o r (process cfg env r) = true := by
+  unfold specC01Sound
+  rw [← hcfg]
+  simp only
+  cases hres : process cfg env r with
+  | noIdentity => simp [Outcome.isIdentity]
+  | rejected e => simp [Outcome.isIdentity]
+  | identity rep => simp [Outcome.isIdentity, C01_sound hres]
+
+/-- Completeness half, FULL statement (not proved at this revision; decided on the complete table
+    by the correspondence run, see DESIGN.md): a Response that satisfies the options and is otherwise
+    valid — its fully signed copy is accepted — is accepted, plain or encrypted. -/
+def C01_complete_full : Prop :=
+  ∀ (cfg : Cfg) (env : Env) (r : Response),
+    (process cfg env (allSigned r)).isIdentity = true →
+    sigPolicyOk cfg.wantResp cfg.wantAssert cfg.wantEither r = true →
+    (process cfg env r).isIdentity = true
+
+/-! Non-vacuity: the table's interesting cells on a concrete message. -/
+private def okAssertion (s : Sig) (enc : Bool) : Assertion :=
+  { sig := s, encrypted := enc,
+    conditions := some { nooa := some 200, audiences := [["me"]] },
+    authn := [{ sessionIndex := some "s" }],
+    subject := some { nameId := some "n", confs := [{ method := .bearer, data := some { nooa := some 200, recipient := some "u", irt := some "r1" } }] } }
+private def resp (rs as : Sig) (enc : Bool) : Response :=
+  { sig := rs, issueInstant := 100, destination := some "u", inResponseTo := some "r1", assertions := [okAssertion as enc] }
+private def cfgOf (wr wa we : Bool) : Cfg := { wantResp := wr, wantAssert := wa, wantEither := we, entityId := "me", returnAddrs := ["u"] }
+private def env0 : Env := { now := 100, outstanding := [("r1", "/x")] }
+
+example : (process (cfgOf true false false) env0 (resp .valid .absent false)).isIdentity = true := by decide
+example : process (cfgOf true false false) env0 (resp .absent .valid false) = .rejected .sigMissingResponse := by decide
+example : (process (cfgOf false false true) env0 (resp .absent .valid true)).isIdentity = true := by decide
+example : process (cfgOf false false true) env0 (resp .absent .absent false) = .rejected .eitherUnsigned := by decide
+example : process (cfgOf false true false) env0 (resp .valid .absent false) = .rejected .sigMissingAssertion := by decide
+example : process (cfgOf false false false) env0 (resp .absent .corrupted true) = .rejected .sigBadAssertion := by decide
+example : process (cfgOf false false false) env0 (resp .untrusted .absent false) = .rejected .sigBadResponse := by decide
+example : (process (cfgOf false false false) env0 (resp .absent .absent false)).isIdentity = true := by decide
+
 end C01
